@@ -996,7 +996,8 @@ def r_hist_merge_identity(ctx, db, est, ln, consts=None):
                         res = empty
                     return leaf_map(res.v), leaf_map(ref.v)
                 return thunk, {"a": (full, deep(full.v)), "empty": (empty, deep(empty.v))}
-            paths, stats = explore(db, setup, Config(release=True, consts=consts or {}), 500)
+            # edges may be infinite (from_ranges documents -inf/+inf outer limits): no finite-only folding
+            paths, stats = explore(db, setup, Config(release=True, finite=False, consts=consts or {}), 500)
             ctx.count_run(Run(fnp, paths, stats, side))
             key = "hist-%s-identity:%s:LEN=%d" % (which, side, ln)
             for p in paths:
